@@ -105,7 +105,7 @@ mpn_get_d (mp_srcptr ptr, mp_size_t size, mp_size_t sign, long exp)
      overflow.	After this exp can of course be reduced to anywhere within
      the {ptr,size} region without underflow.  */
   if (UNLIKELY ((mpir_ui) (GMP_NUMB_BITS * size)
-		> (mpir_ui) (LONG_MAX - exp)))
+		> (mpir_ui) LONG_MAX - (mpir_ui) exp))
     {
       goto ieee_infinity;
 
